@@ -47,6 +47,27 @@ SINGLE_SCENARIOS = {
 }
 
 
+# several arguments in ONE invocation (C05: "each entry it was asked to trash"): same names in different directories
+MULTI_SCENARIOS = {
+    'three-args':          (('file', 'dir', 'link'), {}),
+    'three-args-existing': (('dir', 'file', 'empty'), {'tdir_exists': True, 'pre_pay': [('t1', 'n1', 'file')]}),
+    'two-args-volume':     (('dir', 'file'), {'src_vol': 'V1'}),
+}
+
+
+def scenario(scen):
+    kind, kw = SINGLE_SCENARIOS[scen] if scen in SINGLE_SCENARIOS else MULTI_SCENARIOS[scen]
+    kinds = list(kind) if isinstance(kind, tuple) else [kind]
+    return kinds, kw
+
+
+def put_args(box):
+    argv = box.put_argv('p1')
+    for p in sorted(box.sources)[1:]:
+        argv = argv + [box.sources[p]]
+    return argv
+
+
 def make_box(kinds, kw, seed=0):
     box = oplevel.OpBox(seed=seed, **kw)
     for i, k in enumerate(kinds):
@@ -108,11 +129,11 @@ def schedules_for(scen, bound, rnd, limit=None, nsteps=None):
 # ---- C05: crash points -----------------------------------------------------------------------------
 
 def baseline_ops(scen, seed=0, extra_shim=None):
-    kind, kw = SINGLE_SCENARIOS[scen]
+    kinds, kw = scenario(scen)
     runner.prepare()
-    box = make_box([kind], kw, seed)
+    box = make_box(kinds, kw, seed)
     try:
-        res = runner.run('trash-put', box.put_argv('p1'), os.path.join(box.root, 'cwd'), box.env(),
+        res = runner.run('trash-put', put_args(box), os.path.join(box.root, 'cwd'), box.env(),
                          shim_cfg=box.shim(**(extra_shim or {})), now=(2020, 1, 1, 0, 0, 0))
         ops = [e for e in res['trace'] if 'seq' in e]
         return len(ops), [[e['op'], e['raw'], e['res']] for e in ops], res['exit']
@@ -126,21 +147,26 @@ def run_crash(args):
     scen, k, seed = args[:3]
     mode = args[3] if len(args) > 3 else 'kill'
     runner.prepare()
-    kind, kw = SINGLE_SCENARIOS[scen]
-    box = make_box([kind], kw, seed)
+    kinds, kw = scenario(scen)
+    box = make_box(kinds, kw, seed)
     try:
         how = {'kill': dict(crash_at=k), 'intr': dict(intr_at=k), 'intr_after': dict(intr_after=k)}[mode]
-        res = runner.run('trash-put', box.put_argv('p1'), os.path.join(box.root, 'cwd'), box.env(),
+        res = runner.run('trash-put', put_args(box), os.path.join(box.root, 'cwd'), box.env(),
                          shim_cfg=box.shim(**how), now=(2020, 1, 1, 0, 0, 0))
         creators = {}
+        rels = {os.path.relpath(os.fsdecode(sp), box.root): q for q, sp in box.sources.items()}
+        cur = 'p1'
         for e in res['trace']:
-            oplevel.classify_creator(box, dict(e, p='p1'), creators)
+            for r in e.get('raw') or []:
+                if r in rels:
+                    cur = rels[r]         # the argument being worked on: the last one whose own path was touched
+            oplevel.classify_creator(box, dict(e, p=cur), creators)
         st = box.project(creators)
         last = [e for e in res['trace'] if 'seq' in e][-1:] or [{}]
         killed = res['exit'] in (137, 130)
         return {'scen': scen, 'k': k, 'mode': mode, 'killed': killed, 'exit': res['exit'],
-                'obs': {'state': st, 'done': {} if killed else {'p1': True},
-                        'res': {} if killed else {'p1': 'ok' if res['exit'] == 0 else 'fail'}},
+                'obs': {'state': st, 'done': {} if killed else {q: True for q in box.sources},
+                        'res': {} if killed else {q: 'ok' if res['exit'] == 0 else 'fail' for q in box.sources}},
                 'at': [last[0].get('op'), last[0].get('raw')]}
     finally:
         box.destroy()
